@@ -1459,6 +1459,82 @@ func c09K2(c *Ctx) {
 			}
 		})
 	}
+	// (b) the single result of a call that can be the nil pointer: an in-module function or method
+	// (for an interface call: some in-module implementation) with exactly one result of pointer type
+	// and a return of nil. A load through it needs a dominating != nil test of that very value.
+	mayNil := map[*ssa.Function]bool{}
+	nilResult := func(f *ssa.Function) bool {
+		if v, ok := mayNil[f]; ok {
+			return v
+		}
+		mayNil[f] = false
+		if f == nil || len(f.Blocks) == 0 || f.Signature.Results().Len() != 1 {
+			return false
+		}
+		if _, isPtr := f.Signature.Results().At(0).Type().Underlying().(*types.Pointer); !isPtr {
+			return false
+		}
+		for _, b := range f.Blocks {
+			if ret, isR := b.Instrs[len(b.Instrs)-1].(*ssa.Return); isR && len(ret.Results) == 1 && phiMayBeNil(ret.Results[0], map[ssa.Value]bool{}) {
+				mayNil[f] = true
+			}
+		}
+		return mayNil[f]
+	}
+	for _, fn := range fns {
+		name := FuncName(fn)
+		for _, cl := range Calls(fn) {
+			v, isV := cl.(ssa.Value)
+			if !isV {
+				continue
+			}
+			if _, isPtr := v.Type().Underlying().(*types.Pointer); !isPtr {
+				continue
+			}
+			cc := cl.Common()
+			possible := ""
+			if cal := cc.StaticCallee(); cal != nil {
+				if p.InModule(cal) && nilResult(cal) {
+					possible = FuncName(cal)
+				}
+			} else if cc.IsInvoke() {
+				for _, impl := range p.implementations(cc.Method) {
+					if nilResult(impl) {
+						possible = FuncName(impl)
+						break
+					}
+				}
+			}
+			if possible == "" {
+				continue
+			}
+			for _, r := range *v.Referrers() {
+				deref := false
+				switch x := r.(type) {
+				case *ssa.FieldAddr:
+					deref = x.X == v
+				case *ssa.UnOp:
+					deref = x.Op == token.MUL && x.X == v
+				}
+				if !deref {
+					continue
+				}
+				d := p.ReachCond(r.Block())
+				guarded := d.Implies(func(a *Atom) bool { return a.Rel == "!=" && a.L.Val == v && a.R.IsNil() })
+				sig := "K2|" + fnShape(fn) + "|result of " + callName(cc)
+				if guarded {
+					c.OK(name, p.InstrPos(r), "possibly-nil result of "+callName(cc)+" dereferenced under a non-nil guard")
+					continue
+				}
+				if why, ok := rev[sig]; ok {
+					c.OK(name, p.InstrPos(r), "reviewed: "+why)
+					continue
+				}
+				c.Violation(name, p.InstrPos(r), "nil-result-deref:"+callName(cc),
+					fmt.Sprintf("the result of %s is dereferenced without a dominating != nil test, and %s returns nil on some path: nil dereference on the inputs that take that path (the goroutine that processes inbound messages has no recover). signature: %s", callName(cc), possible, sig))
+			}
+		}
+	}
 	// the rule is expected to examine at least the settings parser
 	ps := p.Func(modPath, "ParseSettings")
 	if cone[ps] {
